@@ -73,6 +73,26 @@ func main() {
 	start := time.Now()
 	if *dump != "" {
 		w := BuildWorld(*repo, nil, nil)
+		if strings.HasPrefix(*dump, "path:") {
+			parts := strings.Split(strings.TrimPrefix(*dump, "path:"), "=>")
+			a, b := w.P.Func(parts[0]), w.P.Func(parts[1])
+			r := w.CG.Reach([]*ssa.Function{a}, nil)
+			if _, ok := r[b]; ok {
+				f := b
+				for f != nil {
+					e := r[f]
+					if e == nil {
+						fmt.Println(shortFuncName(f))
+						break
+					}
+					fmt.Printf("%s  <-[%s cb=%v @%s]- ", shortFuncName(f), e.Mode, e.Callback, w.P.InstrPos(e.Site))
+					f = e.Caller
+				}
+			} else {
+				fmt.Println("unreachable")
+			}
+			return
+		}
 		if strings.HasPrefix(*dump, "mod:") {
 			dumpModRef(w, strings.TrimPrefix(*dump, "mod:"))
 			return
